@@ -420,6 +420,13 @@ def judge_design(c, b, drv):
             sig = "c08/client-refuses-valid"
             if rec_hdr and any('"%s" is missing' % an in msg for an in hdr_map):
                 sig = "c08/header-mapped-attribute-lost-in-nested-self-reference"
+            else:
+                # the known defect of the client's nested body types (built from the nested DEFAULT view), seen through a REQUIRED
+                # attribute of the nested view that was rendered: the client drops it while decoding and then misses it
+                lost = re.findall(r'"(\w+)" is missing from result', msg)
+                paths = [p for p in flat_keys(canon(expected)) if p.rsplit("/", 1)[-1] in lost]
+                if lost and paths and all(p.count("/") > 1 and outside_nested_default(rts, T, p) for p in paths):
+                    sig = "c08/client-drops-nested-attrs-outside-nested-default-view/required-attribute"
             c.fail(sig, "%s view %r: the client refused the response: %s" % (m["name"], view, msg[:300]),
                    input=inp, design=b.design)
         elif canon(drop_zero_extras(o.get("client_result"), expected)) != canon(expected):
